@@ -145,6 +145,11 @@ pub struct World {
     /// indices of operations whose future is still running
     active_ops: Vec<usize>,
     rescue: Rescue,
+    /// per handle slot: a long-lived handle that operations started on the slot use one after the
+    /// other (when it is busy, the next operation gets a fresh clone, as a caller would do), and
+    /// its busy flag. Declared after `ops`: the operations are dropped first.
+    primary: Vec<Option<Box<ContextHandle>>>,
+    busy: Vec<std::rc::Rc<std::cell::Cell<bool>>>,
 }
 
 impl World {
@@ -171,10 +176,13 @@ impl World {
             parsed_upto: 0,
             active_ops: vec![],
             rescue: Default::default(),
+            primary: vec![],
+            busy: vec![],
         }
     }
 
     pub fn tick(&mut self) {
+        self.reap_handles();
         self.step += 1;
         self.writer.set_step(self.step);
     }
@@ -394,6 +402,21 @@ impl World {
                 self.panics.push(("drop(handle)".into(), m));
             }
         }
+        self.reap_handles();
+    }
+
+    /// The long-lived handle of a dropped slot goes as soon as no operation is using it (an
+    /// operation in flight keeps its handle alive, as a borrow would).
+    fn reap_handles(&mut self) {
+        for h in 0..self.primary.len() {
+            if self.handles.get(h).map(|x| x.is_none()).unwrap_or(true) && !self.busy[h].get() {
+                if let Some(old) = self.primary[h].take() {
+                    if let Err(m) = guarded(move || drop(old)) {
+                        self.panics.push(("drop(handle)".into(), m));
+                    }
+                }
+            }
+        }
     }
 
     pub fn live_handles(&self) -> Vec<usize> {
@@ -407,7 +430,17 @@ impl World {
         let handle = self.handles.get(h)?.as_ref()?.clone();
         // the library method is called now, the future it returns is polled when the script says
         let sp = spec.clone();
-        let task = match guarded(move || EagerOp::new(handle, sp)) {
+        while self.primary.len() < self.handles.len() {
+            self.primary.push(None);
+            self.busy.push(Default::default());
+        }
+        if self.primary[h].is_none() {
+            self.primary[h] = Some(Box::new(handle.clone()));
+        }
+        let free = !self.busy[h].get();
+        let hp: *mut ContextHandle = &mut **self.primary[h].as_mut().unwrap();
+        let flag = self.busy[h].clone();
+        let task = match guarded(move || if free { unsafe { EagerOp::on(hp, sp, Some(flag)) } } else { EagerOp::new(handle, sp) }) {
             Ok(f) => Task::new(f),
             Err(m) => {
                 self.panics.push(("call of the operation method".into(), m));
@@ -494,7 +527,9 @@ impl World {
         if op.first_polled_step.is_none() && op.task.is_running() {
             op.first_polled_step = Some(step);
         }
-        match op.task.poll() {
+        let polled = op.task.poll();
+        let finished = !matches!(polled, PollOut::Pending | PollOut::Inert);
+        let r = match polled {
             PollOut::Pending | PollOut::Inert => false,
             PollOut::Ready(out) => {
                 op.ready_count += 1;
@@ -515,7 +550,11 @@ impl World {
                 self.panics.push((format!("op {i} ({})", self.ops[i].spec.kind()), m));
                 true
             }
+        };
+        if finished {
+            self.reap_handles();
         }
+        r
     }
 
     pub fn drop_op(&mut self, i: usize) {
@@ -526,6 +565,7 @@ impl World {
                 self.panics.push((format!("drop(op {i})"), m));
             }
         }
+        self.reap_handles();
     }
 
     pub fn make_stream(&mut self, op: usize) -> Option<usize> {
